@@ -12,7 +12,12 @@ func InitGenesis(ctx sdk.Context, k keeper.Keeper, genState types.GenesisState, 
 	k.SetParams(ctx, genState.Params)
 	states := genState.States
 	for _, av := range states {
-		k.SetState(ctx, *av)
+		state := *av
+		if state.Burn && state.Account == nil {
+			// the burn state is exported without an account, but the running module keeps it with an empty one
+			state.Account = &types.Account{}
+		}
+		k.SetState(ctx, state)
 	}
 }
 
